@@ -100,14 +100,24 @@ func matchCompFilter(filter CompFilter, comp *ical.Component) (bool, error) {
 }
 
 func matchPropFilter(filter PropFilter, comp *ical.Component) (bool, error) {
-	// TODO: this only matches first field, there can be multiple
-	field := comp.Props.Get(filter.Name)
-	if field == nil {
+	fields := comp.Props.Values(filter.Name)
+	if len(fields) == 0 {
 		return filter.IsNotDefined, nil
 	} else if filter.IsNotDefined {
 		return false, nil
 	}
 
+	// The filter matches if any of the properties of that name does
+	for i := range fields {
+		ok, err := matchPropFilterField(filter, &fields[i])
+		if err != nil || ok {
+			return ok, err
+		}
+	}
+	return false, nil
+}
+
+func matchPropFilterField(filter PropFilter, field *ical.Prop) (bool, error) {
 	for _, paramFilter := range filter.ParamFilter {
 		if !matchParamFilter(paramFilter, field) {
 			return false, nil
